@@ -133,6 +133,20 @@ theorem code_rt_patched (W : World) (v : Val)
     ∃ v', runC Cfg.patched W v = .ok v' ∧ pyEq v' v = true :=
   code_rt_cfg Cfg.patched W v hwf hdom (clean_patched v) himp
 
+/-- hypotheses of `code_rt_patched` hold for a value with a nested-enum member,
+a non-empty tuple and a QName with a backslash -/
+example :
+    let v : Val := .model ⟨cs!"pkg.mod_a", [cs!"Outer"]⟩
+      [.enum ⟨cs!"pkg.mod_a", [cs!"Outer", cs!"Inner"]⟩ cs!"A",
+       .tuple [.int 1, .qname cs!"{a\\b}x" cs!"'{a\\\\b}x'"], .str cs!"en" cs!"'en'", .int 0]
+    let W : World := [
+      ⟨⟨cs!"pkg.mod_a", [cs!"Outer"]⟩, .model [⟨cs!"x", true, .value .none⟩, ⟨cs!"t", true, .factory (.tuple [])⟩,
+          ⟨cs!"lang", false, .value (.str cs!"en" cs!"'en'")⟩, ⟨cs!"n", true, .value (.int 0)⟩]⟩,
+      ⟨⟨cs!"pkg.mod_a", [cs!"Outer", cs!"Inner"]⟩, .enum [cs!"A"]⟩]
+    wf W v = true ∧ domOK W v = true ∧ importsOKC Cfg.patched W v = true ∧
+      outcomeC Cfg.patched W v = cs!"equal" ∧ outcome W v = cs!"exc:NameError" := by
+  decide
+
 /-! The hypotheses are satisfiable by a non-trivial input: nested model
 classes three deep, a frozen-style tuple default left empty, an `init=False`
 attribute at its default, a default elided across types (`0 == False`),
